@@ -38,7 +38,10 @@
 (*     translates it there)                                                *)
 (*   - text outside a fixed alphabet (printable ASCII, TAB, LF, CR and a   *)
 (*     few BMP letters): no C0 controls, no surrogates                     *)
-(*   - integers are far inside +/-2^53 by the model's own 32-bit guards    *)
+(*   - integers: the model's own are 32-bit; beyond that only the digit     *)
+(*     strings of SoyValues.Big (|n| <= 2^53, exactly representable in a    *)
+(*     JavaScript number), which the model only prints, negates, compares   *)
+(*     for equality and concatenates - arithmetic on them is Unspec         *)
 (*                                                                         *)
 (* Comparison of outputs is modulo the SPELLING of character references    *)
 (* (CanonRefs of SoyEscape: &quot; == &#34;, &#39; == &apos;).             *)
